@@ -75,6 +75,15 @@ def check_name(run, name: str, eps) -> None:
 
     for label, (store, lookup, ident) in eps.items():
         doc = Document("text" if "draw_page" not in label and "table" not in label else ("presentation" if "draw_page" in label else "spreadsheet"))
+        # decoys are stored BEFORE and after the identifier: a lookup that returns "the first one" must not pass by luck
+        decoys = variants(name)
+        early = []
+        for d in decoys[: len(decoys) // 2]:
+            try:
+                store(doc, d)
+                early.append(d)
+            except Exception:  # noqa: BLE001, S112
+                continue
         try:
             store(doc, name)
         except etree.XPathError as ex:
@@ -83,8 +92,8 @@ def check_name(run, name: str, eps) -> None:
         except (ValueError, TypeError, etree.XMLSyntaxError, AttributeError):
             run.klass(label, "rejected-by-setter")
             continue      # identifier not accepted by this setter: outside the quantifier
-        stored_ok = []
-        for d in variants(name):
+        stored_ok = list(early)
+        for d in decoys[len(decoys) // 2:]:
             try:
                 store(doc, d)
                 stored_ok.append(d)
